@@ -227,3 +227,35 @@ Fixpoint hist_ok (scion : bool) (st : ostate) (ops : list op) (obs : list fobs) 
 
 (* a history on one Fetcher; scion = the Fetcher does its key exchanges over QUIC/SCION *)
 Definition C20_ok (scion : bool) (ops : list op) (obs : list fobs) : bool := hist_ok scion os0 ops obs.
+
+(* ---------- calls that overlap in time on one Fetcher ----------
+   The property speaks of sequences of exchanges on one client; calls made while another call is
+   still in its exchange must behave like SOME sequence: there is an order of the calls such that,
+   with the connections taken in the order in which they reached the peer, every result and what
+   the fetcher holds afterwards are what that sequence of calls allows - every successful result
+   is the complete data of ONE exchange whose message had ended (keys of that connection, all its
+   cookies, its server and port) or comes from the pool such an exchange left, and a failed
+   exchange leaves nothing.  A candidate = the calls in one order, each paired with the
+   connection it is taken to have caused (none for a call answered from the pool). *)
+
+Fixpoint hist_end (scion : bool) (st : ostate) (ops : list op) (obs : list fobs) : option ostate :=
+  match ops with
+  | [] => match obs with [] => Some st | _ => None end
+  | OpStore c :: rest => hist_end scion (store_ok st c) rest obs
+  | OpFetch sc :: rest =>
+    match obs with
+    | [] => None
+    | o :: obs' => match fetch_ok scion st sc o with Some st' => hist_end scion st' rest obs' | None => None end
+    end
+  end.
+
+(* what the fetcher holds after the history (pool; keys and target if a request could use them) *)
+Definition final_ok (st : ostate) (d : kdata) : bool :=
+  os_free st ||
+  (bytes_list_eqb (k_cookies d) (os_pool st) && (if os_last_ok st then info_matches st d else true)).
+
+Definition cand_ok (scion : bool) (final : kdata) (c : list op * list fobs) : bool :=
+  match hist_end scion os0 (fst c) (snd c) with Some st => final_ok st final | None => false end.
+
+Definition C20_overlap_ok (scion : bool) (cands : list (list op * list fobs)) (final : kdata) : bool :=
+  existsb (cand_ok scion final) cands.
